@@ -1,10 +1,1375 @@
-//! Family `proc` — stub (replaced by the unit that owns this family).
+//! Family `proc` (C15): the `ProcessCommand` builder, `validate`, the host-policy gate and what a
+//! spawned child really receives.
+//!
+//! Protocol (one request per line, one answer per line; texts are hex, `-` = empty):
+//! ```text
+//! caps <14 numbers in struct order>   -> ok        limits for the following requests
+//! new <program>                       -> ok        start a history: ProcessCommand::new
+//! arg <v> | cwd <v> | env <k> <v> | stdin_text <v> | stdin_inherit | stdin_null
+//!   | stdout_capture | stdout_inherit | stdout_null | stderr_capture | stderr_inherit | stderr_null
+//!   | timeout <u32> | clone           -> ok        the real builder method is called
+//! timeout_num <n>                     -> ok | refused   script-level `timeout_ms(n)` (real Runtime)
+//! show                                -> program=… args=[…] cwd=… env=[k=v,…] stdin=… out=… err=… timeout=<n|none>
+//! validate                            -> ok program=… … timeout=<n> | err <name>      (real validate)
+//! run <allow:0|1>                     -> denied spawn=<0|1> | invalid <name> spawn=<0|1>
+//!                                        | spawned argv=[…] cwd=… env=[k=v,… sorted] stdin=… out=… err=…
+//!                                        the history is rendered as a NaijaScript program and run through
+//!                                        lexer → parser → resolver → Runtime::new_with_host_policy;
+//!                                        `spawn=` is whether the echo child left its report file, and the
+//!                                        `spawned` line is what the *child* observed
+//! spawn                               -> as `run 1`, through the public API (validate + sys::process::run)
+//! ```
+//! `run`/`spawn` need a history of the form `new <this binary>`, `arg "proc"`, `arg "child"`,
+//! `arg <report path>`, …: the child is `nvh proc child <report> …` — it writes its argv, environment,
+//! working directory, the kind of its three standard descriptors and everything it can read from
+//! stdin into the report file (hex) and exits 0.
+//!
+//! `nvh proc run` also evaluates implementation-level oracles that need no Lean model:
+//! * a shadow of the request lines (arguments in order, last value per key in first-insertion
+//!   order, last cwd/stdin/stdio/timeout) against `show`, against the spec of an accepted `validate`
+//!   and against the child's report (argv, *full* environment = parent's ⊕ overrides, cwd, stdin);
+//! * acceptance = "every limit respected" (a plain conjunction, not the ordered routine);
+//! * refused or denied ⇒ no report file.
+//!
+//! Failures go to stderr as `ORACLE-FAIL <line> <what>`.
 
-pub fn main(_args: &[String]) -> i32 {
-    eprintln!("family proc: not built yet");
-    2
+use std::collections::BTreeMap;
+use std::ffi::OsString;
+use std::os::unix::ffi::{OsStrExt, OsStringExt};
+use std::path::{Path, PathBuf};
+
+use naijascript::arena::{Arena, ArenaString};
+use naijascript::process::{
+    HostPolicy, OutputPolicy, ProcessCaps, ProcessCommand, ProcessError, ProcessSpec, StdinPolicy,
+};
+use naijascript::resolver::Resolver;
+use naijascript::runtime::Runtime;
+use naijascript::syntax::parser::Parser;
+use naijascript::syntax::scanner::Lexer;
+use naijascript::sys::ProcessRunner;
+
+use crate::util::{self, Out, Rng, hex, unhex};
+
+pub fn main(args: &[String]) -> i32 {
+    match args.first().map(String::as_str) {
+        Some("gen") => generate(&args[1..]),
+        Some("run") => run(&args[1..]),
+        Some("child") => child(),
+        _ => {
+            eprintln!(
+                "usage: nvh proc gen --seed S --n N --spawn M --dir D [--big 0|1] | nvh proc run --dir D < requests"
+            );
+            2
+        }
+    }
 }
 
-/// Constants/tables of the compiled crate this family wants in `nvh dump-tables`
-/// (JSON key, JSON value text).
-pub fn dump_tables(_out: &mut Vec<(String, String)>) {}
+/// Constants/tables of the compiled crate this family wants in `nvh dump-tables`.
+pub fn dump_tables(out: &mut Vec<(String, String)>) {
+    let c = ProcessCaps::defaults();
+    for (k, v) in caps_fields(&c) {
+        out.push((format!("proc_caps_{k}"), v.to_string()));
+    }
+    out.push(("proc_native_allow_process".into(), HostPolicy::native_default().allow_process.to_string()));
+    out.push(("proc_wasm_allow_process".into(), HostPolicy::wasm_default().allow_process.to_string()));
+    let same = HostPolicy::native_default().process == c && HostPolicy::wasm_default().process == c;
+    out.push(("proc_policies_use_default_caps".into(), same.to_string()));
+}
+
+fn caps_fields(c: &ProcessCaps) -> [(&'static str, u32); 14] {
+    [
+        ("max_program_bytes", c.max_program_bytes),
+        ("max_cwd_bytes", c.max_cwd_bytes),
+        ("max_args", c.max_args),
+        ("max_arg_bytes", c.max_arg_bytes),
+        ("max_total_arg_bytes", c.max_total_arg_bytes),
+        ("max_env_pairs", c.max_env_pairs),
+        ("max_env_key_bytes", c.max_env_key_bytes),
+        ("max_env_value_bytes", c.max_env_value_bytes),
+        ("max_total_env_bytes", c.max_total_env_bytes),
+        ("max_stdin_bytes", c.max_stdin_bytes),
+        ("max_capture_bytes_per_stream", c.max_capture_bytes_per_stream),
+        ("default_timeout_ms", c.default_timeout_ms),
+        ("max_timeout_ms", c.max_timeout_ms),
+        ("wait_poll_ms", c.wait_poll_ms),
+    ]
+}
+
+fn caps_from(v: &[u32]) -> ProcessCaps {
+    ProcessCaps {
+        max_program_bytes: v[0],
+        max_cwd_bytes: v[1],
+        max_args: v[2],
+        max_arg_bytes: v[3],
+        max_total_arg_bytes: v[4],
+        max_env_pairs: v[5],
+        max_env_key_bytes: v[6],
+        max_env_value_bytes: v[7],
+        max_total_env_bytes: v[8],
+        max_stdin_bytes: v[9],
+        max_capture_bytes_per_stream: v[10],
+        default_timeout_ms: v[11],
+        max_timeout_ms: v[12],
+        wait_poll_ms: v[13],
+    }
+}
+
+fn caps_line(c: &ProcessCaps) -> String {
+    let nums: Vec<String> = caps_fields(c).iter().map(|(_, v)| v.to_string()).collect();
+    format!("caps {}", nums.join(" "))
+}
+
+/// Sub-directories of the work directory that `cwd` requests of spawn histories point to.
+const SUBDIRS: &[&str] = &["sub dir", "$HOME", "st*r", "ünï", "a;b", "q\"uote"];
+
+// ------------------------------------------------------------------------------------ shadow
+
+#[derive(Clone, Debug, PartialEq)]
+enum SIn {
+    Inherit,
+    Null,
+    Text(String),
+}
+
+#[derive(Clone, Debug)]
+enum OpRec {
+    Arg(String),
+    Cwd(String),
+    Env(String, String),
+    StdinText(String),
+    StdinInherit,
+    StdinNull,
+    Out(OutputPolicy),
+    Err(OutputPolicy),
+    Timeout(u32),
+    TimeoutNum(u64),
+    Clone,
+}
+
+/// What the request lines configured, computed without the implementation: arguments in call
+/// order; one pair per key in first-insertion order holding the last value; last cwd, stdin,
+/// stdio policies and timeout.
+#[derive(Clone, Debug)]
+struct Shadow {
+    args: Vec<String>,
+    env: Vec<(String, String)>,
+    cwd: Option<String>,
+    stdin: SIn,
+    out: OutputPolicy,
+    err: OutputPolicy,
+    timeout: Option<u32>,
+}
+
+fn shadow(ops: &[OpRec]) -> Shadow {
+    let mut s = Shadow {
+        args: Vec::new(),
+        env: Vec::new(),
+        cwd: None,
+        stdin: SIn::Inherit,
+        out: OutputPolicy::Inherit,
+        err: OutputPolicy::Inherit,
+        timeout: None,
+    };
+    for op in ops {
+        match op {
+            OpRec::Arg(v) => s.args.push(v.clone()),
+            OpRec::Cwd(v) => s.cwd = Some(v.clone()),
+            OpRec::Env(k, v) => {
+                let mut found = false;
+                for p in s.env.iter_mut() {
+                    if p.0 == *k {
+                        p.1 = v.clone();
+                        found = true;
+                    }
+                }
+                if !found {
+                    s.env.push((k.clone(), v.clone()));
+                }
+            }
+            OpRec::StdinText(v) => s.stdin = SIn::Text(v.clone()),
+            OpRec::StdinInherit => s.stdin = SIn::Inherit,
+            OpRec::StdinNull => s.stdin = SIn::Null,
+            OpRec::Out(p) => s.out = *p,
+            OpRec::Err(p) => s.err = *p,
+            OpRec::Timeout(t) => s.timeout = Some(*t),
+            OpRec::TimeoutNum(n) => {
+                if *n > 0 {
+                    s.timeout = Some(u32::try_from(*n).unwrap_or(u32::MAX));
+                }
+            }
+            OpRec::Clone => {}
+        }
+    }
+    s
+}
+
+/// The limits as a plain conjunction: `None` = every limit respected, otherwise one violated item.
+fn violated(program: &str, s: &Shadow, c: &ProcessCaps) -> Option<&'static str> {
+    let nul = |t: &str| t.as_bytes().contains(&0);
+    let over = |n: usize, cap: u32| n as u64 > u64::from(cap);
+    if program.is_empty() || nul(program) || over(program.len(), c.max_program_bytes) {
+        return Some("program");
+    }
+    if over(s.args.len(), c.max_args) {
+        return Some("argument count");
+    }
+    if over(s.env.len(), c.max_env_pairs) {
+        return Some("environment pair count");
+    }
+    if s.args.iter().any(|a| nul(a) || over(a.len(), c.max_arg_bytes)) {
+        return Some("argument");
+    }
+    if over(s.args.iter().map(String::len).sum(), c.max_total_arg_bytes) {
+        return Some("argument bytes");
+    }
+    if let Some(d) = &s.cwd
+        && (d.is_empty() || nul(d) || over(d.len(), c.max_cwd_bytes))
+    {
+        return Some("cwd");
+    }
+    if s.env.iter().any(|(k, _)| k.is_empty() || nul(k) || k.contains('=') || over(k.len(), c.max_env_key_bytes)) {
+        return Some("environment key");
+    }
+    if s.env.iter().any(|(_, v)| nul(v) || over(v.len(), c.max_env_value_bytes)) {
+        return Some("environment value");
+    }
+    if over(s.env.iter().map(|(k, v)| k.len() + v.len()).sum(), c.max_total_env_bytes) {
+        return Some("environment bytes");
+    }
+    if let SIn::Text(t) = &s.stdin
+        && (nul(t) || over(t.len(), c.max_stdin_bytes))
+    {
+        return Some("stdin text");
+    }
+    let t = s.timeout.unwrap_or(c.default_timeout_ms);
+    if t == 0 || t > c.max_timeout_ms {
+        return Some("timeout");
+    }
+    None
+}
+
+// ------------------------------------------------------------------------------- canonical text
+
+fn hex_s(s: &str) -> String {
+    hex(s.as_bytes())
+}
+
+fn hex_list<'a>(it: impl Iterator<Item = &'a [u8]>) -> String {
+    format!("[{}]", it.map(hex).collect::<Vec<_>>().join(","))
+}
+
+fn env_str<'a>(it: impl Iterator<Item = (&'a [u8], &'a [u8])>) -> String {
+    format!("[{}]", it.map(|(k, v)| format!("{}={}", hex(k), hex(v))).collect::<Vec<_>>().join(","))
+}
+
+fn out_name(p: OutputPolicy) -> &'static str {
+    match p {
+        OutputPolicy::Inherit => "inherit",
+        OutputPolicy::Null => "null",
+        OutputPolicy::Capture => "capture",
+    }
+}
+
+fn stdin_name(p: &StdinPolicy<'_>) -> String {
+    match p {
+        StdinPolicy::Inherit => "inherit".into(),
+        StdinPolicy::Null => "null".into(),
+        StdinPolicy::Text(t) => format!("text:{}", hex_s(t.as_str())),
+    }
+}
+
+fn show_cmd(c: &ProcessCommand<'_>) -> String {
+    format!(
+        "program={} args={} cwd={} env={} stdin={} out={} err={} timeout={}",
+        hex_s(c.program.as_str()),
+        hex_list(c.args.iter().map(|a| a.as_str().as_bytes())),
+        c.cwd.as_ref().map_or("none".to_string(), |d| hex_s(d.as_str())),
+        env_str(c.env.iter().map(|p| (p.key.as_str().as_bytes(), p.value.as_str().as_bytes()))),
+        stdin_name(&c.stdin),
+        out_name(c.stdout),
+        out_name(c.stderr),
+        c.timeout_ms.map_or("none".to_string(), |t| t.to_string()),
+    )
+}
+
+fn show_spec(s: &ProcessSpec<'_>) -> String {
+    format!(
+        "program={} args={} cwd={} env={} stdin={} out={} err={} timeout={}",
+        hex_s(s.program),
+        hex_list(s.args.iter().map(|a| a.as_str().as_bytes())),
+        s.cwd.map_or("none".to_string(), hex_s),
+        env_str(s.env.iter().map(|p| (p.key.as_str().as_bytes(), p.value.as_str().as_bytes()))),
+        stdin_name(s.stdin),
+        out_name(s.stdout),
+        out_name(s.stderr),
+        s.timeout_ms,
+    )
+}
+
+fn show_shadow(program: &str, s: &Shadow, timeout: Option<u32>) -> String {
+    format!(
+        "program={} args={} cwd={} env={} stdin={} out={} err={} timeout={}",
+        hex_s(program),
+        hex_list(s.args.iter().map(String::as_bytes)),
+        s.cwd.as_ref().map_or("none".to_string(), |d| hex_s(d)),
+        env_str(s.env.iter().map(|(k, v)| (k.as_bytes(), v.as_bytes()))),
+        match &s.stdin {
+            SIn::Inherit => "inherit".to_string(),
+            SIn::Null => "null".to_string(),
+            SIn::Text(t) => format!("text:{}", hex_s(t)),
+        },
+        out_name(s.out),
+        out_name(s.err),
+        timeout.map_or("none".to_string(), |t| t.to_string()),
+    )
+}
+
+fn err_token(name: &str) -> String {
+    name.replace(' ', "_")
+}
+
+// --------------------------------------------------------------------------------------- child
+
+#[derive(Clone, Copy, Debug, PartialEq, Eq)]
+struct FdStat {
+    kind: u8, // b'f' fifo, b'n' /dev/null, b'c' other chr, b'r' regular, b'd' dir, b's' socket, b'o' other, b'x' closed
+    dev: u64,
+    ino: u64,
+}
+
+fn fd_stat(fd: i32) -> FdStat {
+    let mut st: libc::stat = unsafe { std::mem::zeroed() };
+    let rc = unsafe { libc::fstat(fd, &mut st) };
+    if rc != 0 {
+        return FdStat { kind: b'x', dev: 0, ino: 0 };
+    }
+    let fmt = st.st_mode & libc::S_IFMT;
+    let kind = if fmt == libc::S_IFIFO {
+        b'f'
+    } else if fmt == libc::S_IFCHR {
+        if libc::major(st.st_rdev) == 1 && libc::minor(st.st_rdev) == 3 { b'n' } else { b'c' }
+    } else if fmt == libc::S_IFREG {
+        b'r'
+    } else if fmt == libc::S_IFDIR {
+        b'd'
+    } else if fmt == libc::S_IFSOCK {
+        b's'
+    } else {
+        b'o'
+    };
+    FdStat { kind, dev: st.st_dev as u64, ino: st.st_ino as u64 }
+}
+
+/// FNV-1a, 64 bit.
+fn fnv64(b: &[u8]) -> u64 {
+    let mut h: u64 = 0xcbf2_9ce4_8422_2325;
+    for &x in b {
+        h ^= u64::from(x);
+        h = h.wrapping_mul(0x0000_0100_0000_01b3);
+    }
+    h
+}
+
+/// `nvh proc child <report> …`: write what this process received into `<report>` and exit 0.
+/// Nothing is written to stdout or stderr.
+fn child() -> i32 {
+    use std::io::Read;
+    let argv: Vec<OsString> = std::env::args_os().collect();
+    let Some(report) = argv.get(3) else { return 64 };
+    let mut text = String::new();
+    text.push_str("argv");
+    for a in &argv {
+        text.push(' ');
+        text.push_str(&hex(a.as_bytes()));
+    }
+    text.push('\n');
+    // values of inherited variables may be secrets: only their length and a 64-bit digest are written
+    for (k, v) in std::env::vars_os() {
+        text.push_str(&format!("env {} {} {:016x}\n", hex(k.as_bytes()), v.as_bytes().len(), fnv64(v.as_bytes())));
+    }
+    match std::env::current_dir() {
+        Ok(d) => text.push_str(&format!("cwd {}\n", hex(d.as_os_str().as_bytes()))),
+        Err(_) => text.push_str("cwd !\n"),
+    }
+    for fd in 0..3 {
+        let s = fd_stat(fd);
+        text.push_str(&format!("fd {fd} {} {} {}\n", s.kind as char, s.dev, s.ino));
+    }
+    let mut input = Vec::new();
+    let read_ok = std::io::stdin().lock().read_to_end(&mut input).is_ok();
+    text.push_str(&format!("stdin {} {}\n", if read_ok { "ok" } else { "err" }, hex(&input)));
+    text.push_str("done\n");
+    let tmp = PathBuf::from(format!("{}.tmp", Path::new(report).display()));
+    if std::fs::write(&tmp, text.as_bytes()).is_err() {
+        return 65;
+    }
+    if std::fs::rename(&tmp, report).is_err() {
+        return 66;
+    }
+    0
+}
+
+#[derive(Debug, Default)]
+struct Report {
+    argv: Vec<Vec<u8>>,
+    env: BTreeMap<Vec<u8>, (usize, u64)>,
+    cwd: Option<Vec<u8>>,
+    fds: Vec<FdStat>,
+    stdin: Vec<u8>,
+    stdin_ok: bool,
+    done: bool,
+}
+
+fn read_report(path: &str) -> Option<Report> {
+    let text = std::fs::read_to_string(path).ok()?;
+    let mut r = Report::default();
+    for line in text.lines() {
+        let w: Vec<&str> = line.split(' ').collect();
+        match w.as_slice() {
+            ["argv", rest @ ..] => r.argv = rest.iter().map(|h| unhex(h).unwrap_or_default()).collect(),
+            ["env", k, len, digest] => {
+                r.env.insert(unhex(k)?, (len.parse().ok()?, u64::from_str_radix(digest, 16).ok()?));
+            }
+            ["cwd", "!"] => r.cwd = None,
+            ["cwd", d] => r.cwd = unhex(d),
+            ["fd", _, kind, dev, ino] => r.fds.push(FdStat {
+                kind: kind.as_bytes()[0],
+                dev: dev.parse().ok()?,
+                ino: ino.parse().ok()?,
+            }),
+            ["stdin", ok, data] => {
+                r.stdin_ok = *ok == "ok";
+                r.stdin = unhex(data)?;
+            }
+            ["done"] => r.done = true,
+            _ => {}
+        }
+    }
+    Some(r)
+}
+
+// ------------------------------------------------------------------------------------ history
+
+/// One history on the implementation side. `cmd` borrows from `arena` (declared after it so that it
+/// is dropped first).
+struct Hist {
+    cmd: ProcessCommand<'static>,
+    arena: Box<Arena>,
+    program: String,
+    ops: Vec<OpRec>,
+}
+
+impl Hist {
+    fn new(program: &str) -> Hist {
+        let arena = Box::new(Arena::new(64 << 20).unwrap());
+        let aref: &'static Arena = unsafe { &*(&*arena as *const Arena) };
+        let cmd = ProcessCommand::new(program, aref);
+        Hist { cmd, arena, program: program.to_string(), ops: Vec::new() }
+    }
+    fn aref(&self) -> &'static Arena {
+        unsafe { &*(&*self.arena as *const Arena) }
+    }
+    fn text(&self, s: &str) -> ArenaString<'static> {
+        ArenaString::from_str(self.aref(), s)
+    }
+}
+
+/// NaijaScript double-quoted literal for `s`, if the language can express it: no CR (a raw CR or LF
+/// ends the literal and only `\n` has an escape), and `{` only in a literal that also needs an escape
+/// (an escaped literal is never treated as an interpolation template).
+fn ns_literal(s: &str) -> Option<String> {
+    if s.contains('\r') {
+        return None;
+    }
+    let has_escape = s.contains(['"', '\\', '\n', '\t']);
+    if s.contains('{') && !has_escape {
+        return None;
+    }
+    let mut q = String::with_capacity(s.len() + 2);
+    q.push('"');
+    for ch in s.chars() {
+        match ch {
+            '\\' => q.push_str("\\\\"),
+            '"' => q.push_str("\\\""),
+            '\n' => q.push_str("\\n"),
+            '\t' => q.push_str("\\t"),
+            c => q.push(c),
+        }
+    }
+    q.push('"');
+    Some(q)
+}
+
+fn representable(program: &str, ops: &[OpRec]) -> bool {
+    ns_literal(program).is_some()
+        && ops.iter().all(|op| match op {
+            OpRec::Arg(v) | OpRec::Cwd(v) | OpRec::StdinText(v) => ns_literal(v).is_some(),
+            OpRec::Env(k, v) => ns_literal(k).is_some() && ns_literal(v).is_some(),
+            _ => true,
+        })
+}
+
+/// The history as a NaijaScript program ending in `cmd.run()`.
+fn render_script(program: &str, ops: &[OpRec], with_run: bool) -> Option<String> {
+    let mut s = format!("make cmd get command({})\n", ns_literal(program)?);
+    for op in ops {
+        match op {
+            OpRec::Arg(v) => s.push_str(&format!("cmd.arg({})\n", ns_literal(v)?)),
+            OpRec::Cwd(v) => s.push_str(&format!("cmd.cwd({})\n", ns_literal(v)?)),
+            OpRec::Env(k, v) => s.push_str(&format!("cmd.env({}, {})\n", ns_literal(k)?, ns_literal(v)?)),
+            OpRec::StdinText(v) => s.push_str(&format!("cmd.stdin_text({})\n", ns_literal(v)?)),
+            OpRec::StdinInherit => s.push_str("cmd.stdin_inherit()\n"),
+            OpRec::StdinNull => s.push_str("cmd.stdin_null()\n"),
+            OpRec::Out(p) => s.push_str(&format!("cmd.stdout_{}()\n", out_name(*p))),
+            OpRec::Err(p) => s.push_str(&format!("cmd.stderr_{}()\n", out_name(*p))),
+            OpRec::Timeout(t) => s.push_str(&format!("cmd.timeout_ms({t})\n")),
+            OpRec::TimeoutNum(n) => s.push_str(&format!("cmd.timeout_ms({n})\n")),
+            OpRec::Clone => {}
+        }
+    }
+    if with_run {
+        s.push_str("make res get cmd.run()\n");
+    }
+    Some(s)
+}
+
+/// Outcome of a script run: `Ok(())` or `Err((diagnostic message, first label))`.
+enum ScriptEnd {
+    Clean,
+    Runtime(String, String),
+    FrontEnd(String),
+}
+
+fn run_script(src: &str, policy: HostPolicy) -> ScriptEnd {
+    let arena = Arena::new(256 << 20).unwrap();
+    let frame = Arena::new(64 << 20).unwrap();
+    let lexer = Lexer::new(src, &arena);
+    let mut parser = Parser::new(lexer, &arena);
+    let (root, perr) = parser.parse_program();
+    if !perr.diagnostics.is_empty() {
+        return ScriptEnd::FrontEnd(format!("parse: {}", perr.diagnostics[0].message));
+    }
+    let mut resolver = Resolver::new(&arena);
+    resolver.resolve(root);
+    if resolver.errors.has_errors() {
+        return ScriptEnd::FrontEnd(format!("resolve: {}", resolver.errors.diagnostics[0].message));
+    }
+    let mut runtime = Runtime::new_with_host_policy(&arena, Some(&frame), policy);
+    runtime.run_with_analysis(root, &resolver.facts, resolver.optimization_plan.as_ref());
+    match runtime.errors.diagnostics.iter().find(|d| d.severity == naijascript::diagnostics::Severity::Error) {
+        None => ScriptEnd::Clean,
+        Some(d) => {
+            let label = d.labels.first().map_or(String::new(), |l| l.message.to_string());
+            ScriptEnd::Runtime(d.message.to_string(), label)
+        }
+    }
+}
+
+/// The report path of a history in child form.
+fn report_path(h: &Hist) -> Option<String> {
+    let s = shadow(&h.ops);
+    if s.args.len() >= 3 && s.args[0] == "proc" && s.args[1] == "child" && !s.args[2].is_empty() {
+        Some(s.args[2].clone())
+    } else {
+        None
+    }
+}
+
+fn classify_fd(st: FdStat, parent: FdStat, expected: &str) -> String {
+    let mut cands: Vec<&str> = Vec::new();
+    if st == parent && st.kind != b'x' {
+        cands.push("inherit");
+    }
+    if st.kind == b'n' {
+        cands.push("null");
+    }
+    if st.kind == b'f' && st != parent {
+        cands.push("piped");
+    }
+    if cands.contains(&expected) {
+        expected.to_string()
+    } else if let Some(c) = cands.first() {
+        (*c).to_string()
+    } else {
+        format!("!{}", st.kind as char)
+    }
+}
+
+fn stdio_of(p: OutputPolicy) -> &'static str {
+    match p {
+        OutputPolicy::Inherit => "inherit",
+        OutputPolicy::Null => "null",
+        OutputPolicy::Capture => "piped",
+    }
+}
+
+/// The `spawned …` answer from the child's report, plus oracle complaints.
+fn spawned_line(
+    h: &Hist,
+    rep: &Report,
+    parent_env: &BTreeMap<Vec<u8>, Vec<u8>>,
+    parent_fds: [FdStat; 3],
+    parent_cwd: &Path,
+) -> (String, Vec<String>) {
+    let s = shadow(&h.ops);
+    let mut bad: Vec<String> = Vec::new();
+    if !rep.done || !rep.stdin_ok || rep.fds.len() != 3 {
+        bad.push("child report incomplete".into());
+    }
+    // argv
+    let mut want_argv: Vec<&[u8]> = vec![h.program.as_bytes()];
+    want_argv.extend(s.args.iter().map(String::as_bytes));
+    if rep.argv.iter().map(Vec::as_slice).collect::<Vec<_>>() != want_argv {
+        bad.push(format!(
+            "child argv {} differs from the configured {}",
+            hex_list(rep.argv.iter().map(Vec::as_slice)),
+            hex_list(want_argv.iter().copied())
+        ));
+    }
+    // environment: parent's with the overrides applied, nothing else (compared by length + digest;
+    // no value of an inherited variable is ever printed)
+    let sig = |v: &[u8]| (v.len(), fnv64(v));
+    let mut want_env: BTreeMap<Vec<u8>, (usize, u64)> = parent_env.iter().map(|(k, v)| (k.clone(), sig(v))).collect();
+    for (k, v) in &s.env {
+        want_env.insert(k.as_bytes().to_vec(), sig(v.as_bytes()));
+    }
+    if rep.env != want_env {
+        let key = want_env
+            .iter()
+            .find(|(k, v)| rep.env.get(*k) != Some(v))
+            .map(|(k, _)| k.clone())
+            .or_else(|| rep.env.keys().find(|k| !want_env.contains_key(*k)).cloned())
+            .unwrap_or_default();
+        let describe = |m: &BTreeMap<Vec<u8>, (usize, u64)>| match m.get(&key) {
+            Some((len, _)) => format!("{len} bytes"),
+            None => "unset".to_string(),
+        };
+        bad.push(format!(
+            "child environment differs from parent+overrides at key {} (child: {}, wanted: {}{})",
+            hex(&key),
+            describe(&rep.env),
+            describe(&want_env),
+            if s.env.iter().any(|(k, _)| k.as_bytes() == key.as_slice()) { ", an override" } else { ", inherited" }
+        ));
+    }
+    let mut keys: Vec<(&[u8], &[u8])> = s.env.iter().map(|(k, v)| (k.as_bytes(), v.as_bytes())).collect();
+    keys.sort();
+    let env_txt = format!(
+        "[{}]",
+        keys.iter()
+            .map(|(k, v)| {
+                let seen = match rep.env.get(*k) {
+                    Some(x) if *x == sig(v) => hex(v),
+                    Some((len, _)) => format!("!differs:{len}"),
+                    None => "!missing".to_string(),
+                };
+                format!("{}={}", hex(k), seen)
+            })
+            .collect::<Vec<_>>()
+            .join(",")
+    );
+    // cwd
+    let child_cwd = rep.cwd.clone().unwrap_or_default();
+    let want_cwd = match &s.cwd {
+        Some(d) => std::fs::canonicalize(parent_cwd.join(d)).ok(),
+        None => std::fs::canonicalize(parent_cwd).ok(),
+    };
+    let cwd_ok = want_cwd.as_ref().is_some_and(|p| p.as_os_str().as_bytes() == child_cwd.as_slice());
+    let cwd_txt = if cwd_ok {
+        s.cwd.as_ref().map_or("none".to_string(), |d| hex_s(d))
+    } else {
+        bad.push(format!("child cwd {} is not the configured directory", hex(&child_cwd)));
+        format!("!{}", hex(&child_cwd))
+    };
+    // stdio
+    let fds: Vec<FdStat> = (0..3).map(|i| rep.fds.get(i).copied().unwrap_or(FdStat { kind: b'x', dev: 0, ino: 0 })).collect();
+    let want_in = match &s.stdin {
+        SIn::Inherit => "inherit",
+        SIn::Null => "null",
+        SIn::Text(_) => "piped",
+    };
+    let in_kind = classify_fd(fds[0], parent_fds[0], want_in);
+    let out_kind = classify_fd(fds[1], parent_fds[1], stdio_of(s.out));
+    let err_kind = classify_fd(fds[2], parent_fds[2], stdio_of(s.err));
+    let want_data: &[u8] = match &s.stdin {
+        SIn::Text(t) => t.as_bytes(),
+        _ => b"",
+    };
+    if in_kind != want_in || rep.stdin != want_data {
+        bad.push(format!(
+            "child stdin {in_kind}:{} differs from the configured {want_in}:{}",
+            hex(&rep.stdin),
+            hex(want_data)
+        ));
+    }
+    if out_kind != stdio_of(s.out) || err_kind != stdio_of(s.err) {
+        bad.push(format!("child stdout/stderr {out_kind}/{err_kind} differ from the configured policies"));
+    }
+    let stdin_txt = if in_kind == "piped" || !rep.stdin.is_empty() {
+        format!("{in_kind}:{}", hex(&rep.stdin))
+    } else {
+        in_kind.clone()
+    };
+    let line = format!(
+        "spawned argv={} cwd={} env={} stdin={} out={} err={}",
+        hex_list(rep.argv.iter().map(Vec::as_slice)),
+        cwd_txt,
+        env_txt,
+        stdin_txt,
+        out_kind,
+        err_kind
+    );
+    (line, bad)
+}
+
+fn parent_env() -> BTreeMap<Vec<u8>, Vec<u8>> {
+    std::env::vars_os().map(|(k, v)| (k.into_vec(), v.into_vec())).collect()
+}
+
+/// `run <allow>` (script route) or `spawn` (API route).
+fn do_run(h: &Hist, caps: &ProcessCaps, allow: Option<bool>) -> (String, Vec<String>) {
+    let Some(report) = report_path(h) else { return ("bad-op".into(), vec![]) };
+    let _ = std::fs::remove_file(&report);
+    let _ = std::fs::remove_file(format!("{report}.tmp"));
+    let penv = parent_env();
+    let pfds = [fd_stat(0), fd_stat(1), fd_stat(2)];
+    let pcwd = std::env::current_dir().unwrap_or_else(|_| PathBuf::from("/"));
+    let s = shadow(&h.ops);
+    let mut bad: Vec<String> = Vec::new();
+    // outcome: Ok(()) spawned and finished, Err(kind text)
+    let outcome: Result<(), String> = match allow {
+        Some(allow) => {
+            let Some(src) = render_script(&h.program, &h.ops, true) else {
+                return ("bad-op".into(), vec![]);
+            };
+            match run_script(&src, HostPolicy { allow_process: allow, process: *caps }) {
+                ScriptEnd::Clean => Ok(()),
+                ScriptEnd::Runtime(msg, label) => match msg.as_str() {
+                    "Process execution denied" => Err("denied".into()),
+                    "Invalid process configuration" => Err(format!("invalid {}", err_token(&label))),
+                    other => Err(format!("error:{}", err_token(other))),
+                },
+                ScriptEnd::FrontEnd(m) => Err(format!("script-error:{}", err_token(&m))),
+            }
+        }
+        None => match h.cmd.validate(caps) {
+            Err(ProcessError::SpecInvalid(name)) => Err(format!("invalid {}", err_token(name))),
+            Err(e) => Err(format!("error:{}", err_token(&format!("{e:?}")))),
+            Ok(spec) => {
+                let arena = Arena::new(16 << 20).unwrap();
+                match naijascript::sys::process::run(&spec, caps, &arena) {
+                    Ok(res) => {
+                        if res.exit_code != Some(0) {
+                            bad.push(format!("child exit code {:?}", res.exit_code));
+                        }
+                        Ok(())
+                    }
+                    Err(e) => Err(format!("error:{}", err_token(&format!("{e:?}")))),
+                }
+            }
+        },
+    };
+    let exists = Path::new(&report).exists();
+    let want_refusal = if allow == Some(false) { Some("denied") } else { violated(&h.program, &s, caps) };
+    let line = match outcome {
+        Ok(()) => {
+            if let Some(what) = want_refusal {
+                bad.push(format!("command was run although it must be refused ({what})"));
+            }
+            match read_report(&report) {
+                Some(rep) => {
+                    let (line, mut b) = spawned_line(h, &rep, &penv, pfds, &pcwd);
+                    bad.append(&mut b);
+                    line
+                }
+                None => {
+                    bad.push("run reported success but the child left no report".into());
+                    "spawned !no-report".to_string()
+                }
+            }
+        }
+        Err(kind) => {
+            if exists {
+                bad.push(format!("a child was spawned although the command was refused ({kind})"));
+            }
+            if want_refusal.is_none() {
+                bad.push(format!("command respects every limit and the policy allows it, but got {kind}"));
+            }
+            format!("{kind} spawn={}", u8::from(exists))
+        }
+    };
+    let _ = std::fs::remove_file(&report);
+    (line, bad)
+}
+
+fn parse_policy(w: &str) -> Option<OutputPolicy> {
+    match w {
+        "capture" => Some(OutputPolicy::Capture),
+        "inherit" => Some(OutputPolicy::Inherit),
+        "null" => Some(OutputPolicy::Null),
+        _ => None,
+    }
+}
+
+fn utf8(h: &str) -> Option<String> {
+    String::from_utf8(unhex(h)?).ok()
+}
+
+fn step(w: &[&str], caps: &mut ProcessCaps, hist: &mut Option<Hist>) -> (String, Vec<String>) {
+    let bad = || ("bad-op".to_string(), Vec::new());
+    let ok = || ("ok".to_string(), Vec::new());
+    match w {
+        ["caps", nums @ ..] => {
+            let v: Vec<u32> = nums.iter().filter_map(|n| n.parse().ok()).collect();
+            if v.len() != 14 || nums.len() != 14 {
+                return bad();
+            }
+            *caps = caps_from(&v);
+            ok()
+        }
+        ["new", p] => {
+            let Some(p) = utf8(p) else { return bad() };
+            *hist = None;
+            *hist = Some(Hist::new(&p));
+            ok()
+        }
+        _ => {
+            let Some(h) = hist.as_mut() else { return bad() };
+            match w {
+                ["arg", v] => {
+                    let Some(v) = utf8(v) else { return bad() };
+                    let t = h.text(&v);
+                    h.cmd.push_arg(t);
+                    h.ops.push(OpRec::Arg(v));
+                    ok()
+                }
+                ["cwd", v] => {
+                    let Some(v) = utf8(v) else { return bad() };
+                    let t = h.text(&v);
+                    h.cmd.set_cwd(t);
+                    h.ops.push(OpRec::Cwd(v));
+                    ok()
+                }
+                ["env", k, v] => {
+                    let (Some(k), Some(v)) = (utf8(k), utf8(v)) else { return bad() };
+                    let (tk, tv) = (h.text(&k), h.text(&v));
+                    h.cmd.set_env(tk, tv);
+                    h.ops.push(OpRec::Env(k, v));
+                    ok()
+                }
+                ["stdin_text", v] => {
+                    let Some(v) = utf8(v) else { return bad() };
+                    let t = h.text(&v);
+                    h.cmd.set_stdin_text(t);
+                    h.ops.push(OpRec::StdinText(v));
+                    ok()
+                }
+                ["stdin_inherit"] => {
+                    h.cmd.set_stdin_policy(StdinPolicy::Inherit);
+                    h.ops.push(OpRec::StdinInherit);
+                    ok()
+                }
+                ["stdin_null"] => {
+                    h.cmd.set_stdin_policy(StdinPolicy::Null);
+                    h.ops.push(OpRec::StdinNull);
+                    ok()
+                }
+                [op] if op.starts_with("stdout_") => {
+                    let Some(p) = parse_policy(&op[7..]) else { return bad() };
+                    h.cmd.set_stdout_policy(p);
+                    h.ops.push(OpRec::Out(p));
+                    ok()
+                }
+                [op] if op.starts_with("stderr_") => {
+                    let Some(p) = parse_policy(&op[7..]) else { return bad() };
+                    h.cmd.set_stderr_policy(p);
+                    h.ops.push(OpRec::Err(p));
+                    ok()
+                }
+                ["timeout", n] => {
+                    let Ok(t) = n.parse::<u32>() else { return bad() };
+                    h.cmd.set_timeout_ms(t);
+                    h.ops.push(OpRec::Timeout(t));
+                    ok()
+                }
+                ["timeout_num", n] => {
+                    let Ok(n) = n.parse::<u64>() else { return bad() };
+                    if n >= (1u64 << 53) {
+                        return bad();
+                    }
+                    // ask the real runtime whether `timeout_ms(n)` is accepted by the builder call
+                    let src = format!("make c get command(\"x\")\nc.timeout_ms({n})\n");
+                    match run_script(&src, HostPolicy { allow_process: false, process: *caps }) {
+                        ScriptEnd::Clean => {
+                            // the builder's own u32 is private to the runtime; the API-side command gets
+                            // the saturated value, the script route gets the literal
+                            h.cmd.set_timeout_ms(u32::try_from(n).unwrap_or(u32::MAX));
+                            h.ops.push(OpRec::TimeoutNum(n));
+                            ok()
+                        }
+                        ScriptEnd::Runtime(_, label) if label == "Timeout must be positive whole number" => {
+                            ("refused".to_string(), vec![])
+                        }
+                        ScriptEnd::Runtime(m, l) => (format!("error:{}:{}", err_token(&m), err_token(&l)), vec![]),
+                        ScriptEnd::FrontEnd(m) => (format!("script-error:{}", err_token(&m)), vec![]),
+                    }
+                }
+                ["clone"] => {
+                    let c = h.cmd.clone_into(h.aref());
+                    h.cmd = c;
+                    h.ops.push(OpRec::Clone);
+                    ok()
+                }
+                ["show"] => {
+                    let line = show_cmd(&h.cmd);
+                    let s = shadow(&h.ops);
+                    let want = show_shadow(&h.program, &s, s.timeout);
+                    let bad = if line == want {
+                        vec![]
+                    } else {
+                        vec![format!("builder state differs from what the calls configured: {line} vs {want}")]
+                    };
+                    (line, bad)
+                }
+                ["validate"] => {
+                    let s = shadow(&h.ops);
+                    let v = violated(&h.program, &s, caps);
+                    match h.cmd.validate(caps) {
+                        Ok(spec) => {
+                            let line = show_spec(&spec);
+                            let mut bad = vec![];
+                            if let Some(what) = v {
+                                bad.push(format!("accepted although a limit is violated: {what}"));
+                            }
+                            let want =
+                                show_shadow(&h.program, &s, Some(s.timeout.unwrap_or(caps.default_timeout_ms)));
+                            if line != want {
+                                bad.push(format!("spec differs from what the calls configured: {line} vs {want}"));
+                            }
+                            (format!("ok {line}"), bad)
+                        }
+                        Err(ProcessError::SpecInvalid(name)) => {
+                            let bad = if v.is_none() {
+                                vec![format!("refused ({name}) although every limit is respected")]
+                            } else {
+                                vec![]
+                            };
+                            (format!("err {}", err_token(name)), bad)
+                        }
+                        Err(e) => (format!("err other:{}", err_token(&format!("{e:?}"))), vec![]),
+                    }
+                }
+                ["run", a @ ("0" | "1")] => do_run(h, caps, Some(*a == "1")),
+                ["spawn"] => do_run(h, caps, None),
+                _ => bad(),
+            }
+        }
+    }
+}
+
+fn run(args: &[String]) -> i32 {
+    util::silence_panics();
+    if let Some(dir) = util::opt(args, "--dir") {
+        for sub in SUBDIRS {
+            let _ = std::fs::create_dir_all(Path::new(dir).join(sub));
+        }
+        let _ = std::fs::create_dir_all(dir);
+    }
+    let lines = util::stdin_lines();
+    let mut out = Out::new();
+    let mut caps = ProcessCaps::defaults();
+    let mut hist: Option<Hist> = None;
+    let mut fails = 0u64;
+    let mut spawns = 0u64;
+    let mut skipping = false;
+    for (lineno, line) in lines.iter().enumerate() {
+        let w: Vec<&str> = line.split_whitespace().collect();
+        if matches!(w.first(), Some(&"new")) {
+            skipping = false;
+        }
+        if skipping && !matches!(w.first(), Some(&"caps")) {
+            out.line("skipped");
+            continue;
+        }
+        match util::catch(|| step(&w, &mut caps, &mut hist)) {
+            Ok((ans, bad)) => {
+                if ans.starts_with("spawned") {
+                    spawns += 1;
+                }
+                out.line(&ans);
+                for msg in bad {
+                    fails += 1;
+                    eprintln!("ORACLE-FAIL {} {}", lineno + 1, msg.replace('\n', " "));
+                }
+            }
+            Err(msg) => {
+                out.line("panic");
+                eprintln!("PANIC {} {}", lineno + 1, msg.replace('\n', " "));
+                skipping = true;
+            }
+        }
+    }
+    eprintln!("ORACLE-SUMMARY fails={fails} lines={} spawned={spawns}", lines.len());
+    0
+}
+
+// ------------------------------------------------------------------------------------ generator
+
+const NASTY: &[&str] = &[
+    "", " ", "a b", "  lead", "trail  ", "a  b   c", "\"q\"", "'s'", "it's", "$HOME", "${PATH}", "$(id)", "`id`",
+    "*", "*.rs", "?", "[a-z]", "~", ";", "a;b", "&&", "||", "|", "> out", "< in", "&", "\n", "a\nb", "line\n", "\t",
+    "\\", "\\n", "\\\"", "é", "日本語", "😀", "a😀b", "-n", "--", "-", "a=b", "=", "#c", "%s", "!", "}", "{", "{x}",
+    "{{", "a\"{b}", "\\{", "\r", "a\rb", "\u{7f}", "\u{1}", "\0", "a\0b", "\0\0",
+];
+
+const KEYS: &[&str] = &["NV_A", "NV_B", "NV C", "nv$d", "NV_é", "NV*", "NV;x", "NV\nL", "HOME", "PATH", "NV_A", "nv_a"];
+const BAD_KEYS: &[&str] = &["", "A=B", "=", "K\0", "\0"];
+
+/// A string of exactly `n` bytes (valid UTF-8) from a mixed alphabet.
+fn sized(rng: &mut Rng, n: usize) -> String {
+    let mut s = String::new();
+    while s.len() < n {
+        let left = n - s.len();
+        let pick = rng.below(12);
+        let piece = match pick {
+            0 if left >= 2 => "é",
+            1 if left >= 3 => "日",
+            2 if left >= 4 => "😀",
+            3 => " ",
+            4 => "$",
+            5 => "*",
+            6 => ";",
+            7 => "\n",
+            8 => "\"",
+            9 => "=",
+            _ => "a",
+        };
+        s.push_str(piece);
+    }
+    s
+}
+
+fn text(rng: &mut Rng) -> String {
+    match rng.below(10) {
+        0..=3 => (*rng.pick(NASTY)).to_string(),
+        4..=8 => {
+            let n = rng.below(7) as usize;
+            sized(rng, n)
+        }
+        _ => {
+            let n = 7 + rng.below(30) as usize;
+            sized(rng, n)
+        }
+    }
+}
+
+fn no_nul(mut s: String) -> String {
+    s.retain(|c| c != '\0');
+    s
+}
+
+fn line_of(op: &OpRec) -> String {
+    match op {
+        OpRec::Arg(v) => format!("arg {}", hex_s(v)),
+        OpRec::Cwd(v) => format!("cwd {}", hex_s(v)),
+        OpRec::Env(k, v) => format!("env {} {}", hex_s(k), hex_s(v)),
+        OpRec::StdinText(v) => format!("stdin_text {}", hex_s(v)),
+        OpRec::StdinInherit => "stdin_inherit".into(),
+        OpRec::StdinNull => "stdin_null".into(),
+        OpRec::Out(p) => format!("stdout_{}", out_name(*p)),
+        OpRec::Err(p) => format!("stderr_{}", out_name(*p)),
+        OpRec::Timeout(t) => format!("timeout {t}"),
+        OpRec::TimeoutNum(n) => format!("timeout_num {n}"),
+        OpRec::Clone => "clone".into(),
+    }
+}
+
+/// The quantities the limits are compared with.
+struct Metrics {
+    v: [u64; 14],
+}
+
+fn metrics(program: &str, s: &Shadow, default_timeout: u32) -> Metrics {
+    let t = s.timeout.unwrap_or(default_timeout);
+    Metrics {
+        v: [
+            program.len() as u64,
+            s.cwd.as_ref().map_or(0, String::len) as u64,
+            s.args.len() as u64,
+            s.args.iter().map(String::len).max().unwrap_or(0) as u64,
+            s.args.iter().map(String::len).sum::<usize>() as u64,
+            s.env.len() as u64,
+            s.env.iter().map(|(k, _)| k.len()).max().unwrap_or(0) as u64,
+            s.env.iter().map(|(_, v)| v.len()).max().unwrap_or(0) as u64,
+            s.env.iter().map(|(k, v)| k.len() + v.len()).sum::<usize>() as u64,
+            match &s.stdin {
+                SIn::Text(t) => t.len() as u64,
+                _ => 0,
+            },
+            1 << 20,
+            u64::from(default_timeout),
+            u64::from(t),
+            10,
+        ],
+    }
+}
+
+fn clamp32(x: i128) -> u32 {
+    x.clamp(0, i128::from(u32::MAX)) as u32
+}
+
+/// Limits placed around the metrics: each limit independently far above (most often), exactly at,
+/// one above or one below its metric.
+fn caps_around(rng: &mut Rng, m: &Metrics, p_below: u64) -> ProcessCaps {
+    let mut v = [0u32; 14];
+    for i in 0..14 {
+        let base = m.v[i] as i128;
+        let r = rng.below(100);
+        let d: i128 = if r < p_below {
+            -1
+        } else if r < p_below + 22 {
+            0
+        } else if r < p_below + 32 {
+            1
+        } else {
+            1000
+        };
+        v[i] = clamp32(base + d);
+    }
+    // default timeout is an input, not a limit; keep it
+    v[11] = m.v[11] as u32;
+    v[10] = 1 << 20;
+    v[13] = 10;
+    caps_from(&v)
+}
+
+fn gen_builder_history(rng: &mut Rng, out: &mut Out) {
+    let program = match rng.below(24) {
+        0 => String::new(),
+        1 => "a\0".to_string(),
+        2 | 3 => text(rng),
+        _ => {
+            let n = 1 + rng.below(6) as usize;
+            no_nul(sized(rng, n))
+        }
+    };
+    let nops = rng.below(11);
+    let mut ops: Vec<OpRec> = Vec::new();
+    let clean = rng.chance(1, 2); // half of the histories carry no NUL / bad key at all
+    for _ in 0..nops {
+        let t = |rng: &mut Rng| if clean { no_nul(text(rng)) } else { text(rng) };
+        let op = match rng.below(100) {
+            0..=34 => OpRec::Arg(t(rng)),
+            35..=59 => {
+                let k = if !clean && rng.chance(1, 6) {
+                    (*rng.pick(BAD_KEYS)).to_string()
+                } else if rng.chance(1, 8) {
+                    no_nul(text(rng)).replace('=', "")
+                } else {
+                    (*rng.pick(KEYS)).to_string()
+                };
+                let k = if clean && k.is_empty() { "K".to_string() } else { k };
+                OpRec::Env(k, t(rng))
+            }
+            60..=67 => {
+                let d = t(rng);
+                OpRec::Cwd(if clean && d.is_empty() { "/".into() } else { d })
+            }
+            68..=75 => OpRec::StdinText(t(rng)),
+            76..=77 => OpRec::StdinInherit,
+            78..=79 => OpRec::StdinNull,
+            80..=85 => OpRec::Out(*rng.pick(&[OutputPolicy::Capture, OutputPolicy::Inherit, OutputPolicy::Null])),
+            86..=89 => OpRec::Err(*rng.pick(&[OutputPolicy::Capture, OutputPolicy::Inherit, OutputPolicy::Null])),
+            90..=95 => OpRec::Timeout(*rng.pick(&[0u32, 1, 2, 9, 10, 1000, 3_600_000, 3_600_001, u32::MAX - 1, u32::MAX])),
+            _ => OpRec::Clone,
+        };
+        ops.push(op);
+    }
+    out.line(&format!("new {}", hex_s(&program)));
+    for (i, op) in ops.iter().enumerate() {
+        out.line(&line_of(op));
+        if rng.chance(1, 12) && i + 1 < ops.len() {
+            out.line("show");
+        }
+    }
+    out.line("show");
+    let s = shadow(&ops);
+    for round in 0..3 {
+        let default_timeout =
+            if rng.chance(1, 12) { 0 } else { *rng.pick(&[1u32, 5, 900_000, 3_600_000, u32::MAX]) };
+        let m = metrics(&program, &s, default_timeout);
+        let caps = if rng.chance(1, 25) {
+            let mut d = ProcessCaps::defaults();
+            d.default_timeout_ms = default_timeout.max(1).min(d.max_timeout_ms);
+            d
+        } else if round == 1 {
+            // exactly one limit one below its metric, every other limit met
+            let mut c = caps_around(rng, &m, 0);
+            let candidates: Vec<usize> =
+                [0usize, 1, 2, 3, 4, 5, 6, 7, 8, 9, 12].into_iter().filter(|&i| m.v[i] > 0).collect();
+            if !candidates.is_empty() {
+                let which = *rng.pick(&candidates);
+                let mut v: Vec<u32> = caps_fields(&c).iter().map(|(_, x)| *x).collect();
+                v[which] = clamp32(m.v[which] as i128 - 1);
+                c = caps_from(&v);
+            }
+            c
+        } else {
+            caps_around(rng, &m, if round == 0 { 0 } else { 6 })
+        };
+        out.line(&caps_line(&caps));
+        out.line("validate");
+    }
+}
+
+fn gen_spawn_history(rng: &mut Rng, out: &mut Out, nvh: &str, dir: &str, id: &str, big: bool) {
+    let report = format!("{dir}/r-{id}");
+    let mut ops: Vec<OpRec> =
+        vec![OpRec::Arg("proc".into()), OpRec::Arg("child".into()), OpRec::Arg(report.clone())];
+    // what kind of history: 0 plain accept, 1 content-invalid, 2 a limit one below, 3 denied
+    let kind = match rng.below(100) {
+        0..=49 => 0,
+        50..=59 => 1,
+        60..=77 => 2,
+        _ => 3,
+    };
+    let nops = 2 + rng.below(9);
+    let pick_text = |rng: &mut Rng| -> String {
+        if big && rng.chance(1, 6) {
+            let n = *rng.pick(&[4096usize, 16_384, 65_535, 65_536]);
+            sized(rng, n)
+        } else {
+            no_nul(text(rng))
+        }
+    };
+    for _ in 0..nops {
+        let op = match rng.below(100) {
+            0..=39 => OpRec::Arg(pick_text(rng)),
+            40..=64 => {
+                let k = if rng.chance(1, 8) {
+                    let k = no_nul(text(rng)).replace('=', "");
+                    if k.is_empty() { "NV_E".to_string() } else { k }
+                } else {
+                    (*rng.pick(KEYS)).to_string()
+                };
+                let mut v = pick_text(rng);
+                if v.len() > 16_384 {
+                    let mut cut = 16_384;
+                    while !v.is_char_boundary(cut) {
+                        cut -= 1;
+                    }
+                    v.truncate(cut);
+                }
+                // PATH/HOME overrides are welcome (absolute program path), but keep the loader sane
+                OpRec::Env(k, v)
+            }
+            65..=74 => {
+                let d = match rng.below(5) {
+                    0 => dir.to_string(),
+                    1 => "/".to_string(),
+                    2 => ".".to_string(),
+                    _ => format!("{dir}/{}", rng.pick(SUBDIRS)),
+                };
+                OpRec::Cwd(d)
+            }
+            75..=84 => OpRec::StdinText(pick_text(rng)),
+            85..=86 => OpRec::StdinNull,
+            87..=88 => OpRec::StdinInherit,
+            89..=92 => OpRec::Out(*rng.pick(&[OutputPolicy::Capture, OutputPolicy::Inherit, OutputPolicy::Null])),
+            93..=95 => OpRec::Err(*rng.pick(&[OutputPolicy::Capture, OutputPolicy::Inherit, OutputPolicy::Null])),
+            // generous only: a loaded machine must never turn a sample into a timeout
+            96..=97 => OpRec::TimeoutNum(*rng.pick(&[600_000u64, 900_000, 3_600_000])),
+            _ => OpRec::Clone,
+        };
+        ops.push(op);
+    }
+    if kind == 1 || (kind == 3 && rng.chance(1, 2)) {
+        // one invalid content item (also under a denying policy: the gate comes first)
+        let op = match rng.below(7) {
+            0 => OpRec::Arg("a\0b".into()),
+            1 => OpRec::Env("A=B".into(), "v".into()),
+            2 => OpRec::Env("K".into(), "v\0".into()),
+            3 => OpRec::StdinText("\0".into()),
+            4 => OpRec::Cwd("/\0".into()),
+            5 => OpRec::TimeoutNum(*rng.pick(&[3_600_001u64, 4_294_967_295, 4_294_967_296, 5_000_000_000])),
+            _ => OpRec::Env("\0K".into(), "v".into()),
+        };
+        let at = 3 + rng.below((ops.len() - 2) as u64) as usize;
+        ops.insert(at.min(ops.len()), op);
+    }
+    // the final stdin setting is text or null nine times out of ten (an inherited stdin is the
+    // harness's own, already drained, request pipe)
+    if !matches!(shadow(&ops).stdin, SIn::Text(_) | SIn::Null) || rng.chance(1, 3) {
+        if rng.chance(9, 10) {
+            ops.push(if rng.chance(2, 3) { OpRec::StdinText(pick_text(rng)) } else { OpRec::StdinNull });
+        }
+    }
+    let s = shadow(&ops);
+    let mut caps = ProcessCaps::defaults();
+    let m = metrics(nvh, &s, caps.default_timeout_ms);
+    if kind == 2 {
+        // one limit exactly one below what the command needs, the others exactly met or default
+        let candidates: Vec<usize> = [0usize, 1, 2, 3, 4, 5, 6, 7, 8, 9, 12]
+            .into_iter()
+            .filter(|&i| m.v[i] > 0 && !(i == 1 && s.cwd.is_none()) && !(i == 9 && !matches!(s.stdin, SIn::Text(_))))
+            .collect();
+        let which = *rng.pick(&candidates);
+        let mut v: Vec<u32> = caps_fields(&caps).iter().map(|(_, x)| *x).collect();
+        for i in [0usize, 1, 2, 3, 4, 5, 6, 7, 8, 9, 12] {
+            if rng.chance(1, 2) {
+                v[i] = clamp32(m.v[i] as i128);
+            }
+        }
+        v[which] = clamp32(m.v[which] as i128 - 1);
+        caps = caps_from(&v);
+    } else if rng.chance(1, 2) {
+        // every limit met exactly
+        let mut v: Vec<u32> = caps_fields(&caps).iter().map(|(_, x)| *x).collect();
+        for i in [0usize, 1, 2, 3, 4, 5, 6, 7, 8, 9, 12] {
+            if rng.chance(2, 3) {
+                v[i] = clamp32(m.v[i] as i128);
+            }
+        }
+        caps = caps_from(&v);
+    }
+    out.line(&format!("new {}", hex_s(nvh)));
+    out.line(&caps_line(&caps));
+    for op in &ops {
+        out.line(&line_of(op));
+    }
+    out.line("show");
+    out.line("validate");
+    let allow = kind != 3;
+    if representable(nvh, &ops) {
+        if allow && rng.chance(1, 4) {
+            out.line("spawn");
+        }
+        out.line(&format!("run {}", u8::from(allow)));
+    } else {
+        out.line("spawn");
+    }
+}
+
+fn generate(args: &[String]) -> i32 {
+    let seed = util::opt_u64(args, "--seed", 1);
+    let n = util::opt_u64(args, "--n", 1000);
+    let spawn = util::opt_u64(args, "--spawn", 0);
+    let big = util::opt_u64(args, "--big", 0) != 0;
+    let dir = util::opt(args, "--dir").unwrap_or("/nonexistent-nvh-dir").to_string();
+    let nvh = match util::opt(args, "--nvh") {
+        Some(p) => p.to_string(),
+        None => std::env::current_exe().ok().and_then(|p| p.to_str().map(str::to_string)).unwrap_or_default(),
+    };
+    let mut rng = Rng::new(seed ^ 0xC15);
+    let mut out = Out::new();
+    out.line(&caps_line(&ProcessCaps::defaults()));
+    for _ in 0..n {
+        let mut r = rng.fork();
+        gen_builder_history(&mut r, &mut out);
+    }
+    for i in 0..spawn {
+        let mut r = rng.fork();
+        gen_spawn_history(&mut r, &mut out, &nvh, &dir, &format!("{seed}-{i}"), big);
+    }
+    0
+}
